@@ -2,7 +2,7 @@
 C09 — model of the logical type combinators of utype.
 
 Part A (`logical*`): `LogicalType.logical_parse`, utype/parser/rule.py:359-467 (after the `fix:` patches
-fixes/C09-xor-exactly-one.patch and the earlier AllOf repair), branch for branch, over *abstract* argument
+utype commits 4070fa5 (xor), 592a37c and c9f6bef (AllOf)), branch for branch, over *abstract* argument
 parsers: an argument is a pair ⟨`exact v` = `type(value) == con`, `run o v` = `context.transformer(value, con)`
 under options `o`⟩, so every theorem holds for every argument type (builtin, constrained, generic, data class,
 nested combinator).  The error bookkeeping of `RuntimeContext` (options.py:444-480: `errors`, `tmp_errors`,
@@ -38,6 +38,15 @@ inductive Err where
 def Err.collectedId : Nat := 0
 def Err.oneOfId : Nat := 1
 def Err.negateId : Nat := 2
+def Err.parseErrorId : Nat := 3
+/-- convention of the class ids: ids below `nonParseBase` denote `exc.ParseError` and its subclasses,
+ids from `nonParseBase` on every other exception class (TypeError, ValueError, AttributeError, …) -/
+def Err.nonParseBase : Nat := 1000
+def Err.cls : Err → Nat
+  | .mk c _ => c
+def Err.isParseError (e : Err) : Bool := e.cls < Err.nonParseBase
+/-- `if not isinstance(e, exc.ParseError): e = exc.ParseError(type=con, value=value, origin_exc=e)` (rule.py:372-373) -/
+def Err.wrapParse (e : Err) : Err := if e.isParseError then e else .mk Err.parseErrorId []
 def Err.collected (es : List Err) : Err := .mk Err.collectedId es
 def Err.oneOf : Err := .mk Err.oneOfId []
 def Err.negate : Err := .mk Err.negateId []
@@ -90,7 +99,7 @@ def stages (o : Opts) : List Opts :=
 section
 variable {V : Type}
 
-/-! ### `&` (rule.py:366-374) -/
+/-! ### `&` (rule.py:366-376; a non-ParseError exception of a condition is wrapped into ParseError) -/
 
 /-- the loop: running value, and the first exception -/
 def allLoop (o : Opts) : List (Arg V) → V → V × Option Err
@@ -103,7 +112,7 @@ def allLoop (o : Opts) : List (Arg V) → V → V × Option Err
 def logicalAll (as : List (Arg V)) (o : Opts) (v : V) : Except Err V :=
   match allLoop o as v with
   | (v', none) => raiseError {} v'
-  | (v', some e) => afterHandle (handleError o {} e) v'
+  | (v', some e) => afterHandle (handleError o {} e.wrapParse) v'
 
 /-! ### `|` (rule.py:376-423) -/
 
